@@ -108,9 +108,9 @@ theorem exCfg_attr : ∀ h, 62 ∉ exCfg.attr h := by
 
 /-- non-vacuity of `render_roundtrip_partial`: nested highlight over CR LF, an escaped `<`, a lone CR -/
 example : (∀ s e, Ev.source s e ∈ [Ev.start 1, .source 0 3, .stop, .source 3 6] →
-      tailLoss (sliceT [97, 13, 10, 60, 13, 0xFF] s e) = false) ∧
+      tailLoss (sliceT [97, 13, 10, 60, 0xFF, 13] s e) = false) ∧
     wellFormed 6 [Ev.start 1, .source 0 3, .stop, .source 3 6] = true ∧
-    htmlText (renderT lossy exCfg [Ev.start 1, .source 0 3, .stop, .source 3 6] [97, 13, 10, 60, 13, 0xFF]).html
+    htmlText (renderT lossy exCfg [Ev.start 1, .source 0 3, .stop, .source 3 6] [97, 13, 10, 60, 0xFF, 13]).html
       = [97, 10, 60, 0xEF, 0xBF, 0xBD, 10] := by
   refine ⟨?_, by decide, by decide⟩
   intro s e hm
